@@ -1,0 +1,28 @@
+//go:build verif
+// +build verif
+
+package rtsp
+
+import (
+	"bufio"
+
+	"github.com/cnotch/xlog"
+)
+
+// VerifHandler receives what the dispatcher decodes (verification harness only).
+type VerifHandler interface {
+	OnRequest(req *Request) error
+	OnResponse(resp *Response) error
+	OnPack(pack *RTPPack) error
+}
+
+type verifHandler struct{ h VerifHandler }
+
+func (v verifHandler) onRequest(req *Request) error    { return v.h.OnRequest(req) }
+func (v verifHandler) onResponse(resp *Response) error { return v.h.OnResponse(resp) }
+func (v verifHandler) onPack(pack *RTPPack) error      { return v.h.OnPack(pack) }
+
+// VerifReceive runs the connection dispatcher (receive) once on r.
+func VerifReceive(r *bufio.Reader, channels []int, h VerifHandler) error {
+	return receive(xlog.L(), r, channels, verifHandler{h})
+}
